@@ -146,7 +146,9 @@ func NewReverseSuffixSearcher(
 		pikevm:         pikevm,
 		suffixLen:      suffixLen,
 		suffixBytes:    suffixBytes,
-		matchStartZero: matchStartZero,
+		// The `.*` fast path reasons line by line (a default dot stops at '\n'); a suffix
+		// that itself contains a newline spans two lines, so it takes the reverse scan.
+		matchStartZero: matchStartZero && bytes.IndexByte(suffixBytes, '\n') < 0,
 	}
 	s.fwdCachePool = sync.Pool{
 		New: func() any { return s.forwardDFA.NewCache() },
